@@ -283,6 +283,43 @@ CHECKS = {
         note=TRUST + "Quick: <= 2 statements after the starting point per trigger set, thorough <= 3. Where the statement assigns the watched column without "
              "changing its value, both readings of UPDATE OF (assigned / changed) conform. Triggers whose bodies touch the subject table, cascaded firings "
              "and INSTEAD OF are outside the model."),
+    "C17": dict(
+        engine="btree", category="model_checking",
+        technique="TLA+ ordered-multimap model (BTree.tla); GEN MC_BTree (BFS with VIEW, and -simulate), RUN vq_btree (public BTreeIndex API over PageManager on a temp dir, child-process isolated), VAL TraceBTree (deterministic fold, acceptance sets, WellFormed on the decoded page dump)",
+        design="DESIGN.md section 6 (C17), section 10",
+        text="BTree.tla is the ordered multimap key -> bag of row ids with the acceptance sets for lookup / multi-lookup / range-scan answers and WellFormed(dump) "
+             "(sorted keys in and across leaves, consistent separators, uniform leaf depth, leaf chain visiting every leaf once). TLC enumerates all call sequences "
+             "(insert, delete, delete_specific, reload) of boundary-directed windows, identified up to the resulting multimap, over empty, insert-built and "
+             "bulk-loaded trees whose sizes sit on both sides of every height change (degree 5 / 6 / 9 VARCHAR schemas, INTEGER at the production fan-out 204, "
+             "composite keys with NULL components, duplicate keys), plus TLC-simulated random walks, a re-open family and heavy-duplicate keys. After each "
+             "history the harness looks every key of the universe up, runs 80-140 range scans (one- and two-sided, inverted, all inclusiveness combinations), "
+             "multi-lookups and dumps every reachable page; TLC validates every outcome, return value, answer and the dump against the model. The model itself is "
+             "checked for the step laws and for WellFormed accepting canonical trees and rejecting single-field corruptions.",
+        note=TRUST + "Quick: 11 310 scenarios (depth 2-3); thorough: 128 929 (depth 3-4, wide nodes). The page decoder and rank concretisation in vq_btree are "
+             "trusted. Two known findings (re-opening the index file; a key with more than ~510 row ids) are reported as KNOWN-FINDING."),
+    "C25": dict(
+        engine="engine", category="model_checking", technique=T_ENGINE, design="DESIGN.md section 6 (C25), section 10",
+        text="In the specification the cache does not exist: a cached query (action cq) has exactly the meaning of the query on the current state. The harness "
+             "drives QuerySignature::from_sql, QueryResultCache::get / insert / invalidate_table and extract_tables_from_select the way the sqllogictest adapter "
+             "does (lookup by text signature, on a miss execute and insert with the extracted tables, invalidate_table(target) after a write). MC_Cache.tla "
+             "enumerates every interleaving of ten cached queries and ten writes: texts that differ only in the case of a string literal, tables reached "
+             "through an IN subquery, a join, a derived table, a CTE, UNION, a scalar subquery and a view, writes by INSERT / UPDATE / DELETE / TRUNCATE and "
+             "DROP + CREATE of a table. TLC validates every answer - served from the cache or not - against EvalQ on the specification state; the run is "
+             "rejected as vacuous if no answer came from the cache.",
+        note=TRUST + "Quick: histories of <= 3 actions after the setup, thorough <= 4. The adapter itself is test code and out of reach; changes in "
+             "crates/vibesql-executor/src/cache/*.rs are observed. One known finding (view over a written base table) is reported as KNOWN-FINDING."),
+    "C26": dict(
+        engine="engine", category="model_checking", technique=T_ENGINE, design="DESIGN.md section 6 (C26), section 10",
+        text="Engine.tla carries the access-control state (roles, grants) and defines: under a non-admin role a statement runs only if the role holds SELECT on "
+             "every base table it can read rows of - through FROM, joins, derived tables, CTEs, views down to their base tables, subqueries in any clause, the "
+             "source of INSERT ... SELECT - and the write privilege on its target; otherwise it fails and changes nothing. MC_Sec.tla enumerates histories that "
+             "interleave GRANT / REVOKE (issued as ADMIN) of the four privileges on two tables with 27 statements issued under role R1 that reach the protected "
+             "table through every such shape (scan, index filter, two join forms, derived table, CTE, view, IN / NOT IN / EXISTS / scalar subqueries in SELECT, "
+             "HAVING, UPDATE ... SET, UPDATE / DELETE ... WHERE, UNION, both implementations of INSERT ... SELECT), from three starting points; the model is "
+             "checked for the property's two obligations (SecLaw). TLC compares outcome, all table contents and every query answer after every statement.",
+        note=TRUST + "Quick: <= 2 steps (a step = SET ROLE + action), thorough <= 3. One-directional where the property is: refusing a statement although the "
+             "privileges are present is accepted; an UPDATE / DELETE that only lacks SELECT for a subquery may end as a no-op. DDL under a restricted role, "
+             "column privileges and role membership are outside the model."),
 }
 
 NOT_APPLICABLE = {
@@ -292,6 +329,11 @@ PLANNED = "check not built yet (same technique planned, see DESIGN.md section 6)
 
 HOOK_COMMITS = ["2f8c5872cefe0a8b8470394988dc531f4f461daa"]
 ENGINES = {
+    "btree": {
+        "path": "/verif/spec/BTree.tla",
+        "text": "TLA+ ordered-multimap model of the disk-backed B+ tree (BTree.tla) with its scenario generator (MC_BTree) and trace validator (TraceBTree); "
+                "harness binary vq_btree",
+    },
     "values": {
         "path": "/verif/spec/ValueLaws.tla",
         "text": "TLA+ law / calendar specifications for the value layer (ValueLaws.tla, Temporal.tla) with their enumeration models (MC_Values, MC_Temporal) "
